@@ -213,6 +213,11 @@ RunResult runDaemon(const Json::Value& sc, const DaemonHooks* hooks) {
     g.tick = idx;
     g.access_count = 0;
     R.worlds.push_back(sim.world());
+    {
+      std::map<std::string, uint64_t> ino;
+      for (auto& c : sim.world().cgs) ino[c.path] = sim.inode(c.path);
+      R.inode_at_tick.push_back(ino);
+    }
     R.tick_ms.push_back(g.now_ms());
     R.ticks_run = idx + 1;
     Ev e;
